@@ -50,6 +50,7 @@ const (
 	KShadow     = "C16-STRUCT-SHADOW-PROPERTY"
 	KFieldGrow  = "C16-FIELD-SLICE-GROW-LOST"
 	KInt64Str   = "C16-INT64-UNROUNDED-STRING"
+	KMapMethod  = "C16-MAP-METHOD-NAME-WRITE-DROPPED"
 )
 
 func impossible(class string, known ...string) Den {
@@ -124,6 +125,26 @@ func Denote(v JV, t reflect.Type, path string) Den {
 
 func denote0(v JV, t reflect.Type, path string) Den {
 	k := t.Kind()
+	if v.IsGoList() { // element-wise through the checked numeric rule, or (for other targets) unmodelled
+		elems := v.GoListElems()
+		switch {
+		case k == reflect.Slice || k == reflect.Array:
+			d := denoteList(JArr(elems...), t, path)
+			d.MayFail = true
+			d.Hard = true
+			d.Class = "bridged-go-list>" + d.Class
+			return d
+		case k == reflect.Interface && t.NumMethod() == 0:
+			g := GV{K: "list"}
+			for _, e := range elems {
+				g.Elems = append(g.Elems, NumF(e.Float()))
+			}
+			return Den{St: Exact, V: g, Class: "bridged-go-list>any"}
+		case k == reflect.Struct, k == reflect.Func, IsNumeric(k):
+			return impossible("bridged-go-list>" + k.String())
+		}
+		return anyDen("bridged-go-list>" + k.String())
+	}
 	named := t.PkgPath() != "" && k != reflect.Struct // MyInt, MyStr, … (non-struct named types)
 
 	if v.IsGo() {
